@@ -1568,13 +1568,11 @@ for _n in (0, 1):
             fix={'route-source': 0, 'hops': _n})(lambda v: _access_route(v, False))
 # two elements: every combination of the shapes of the two "for" values, one variant each (lower-priority headers: lazily present);
 # 'two-hops' = 2 (both with port / brackets: the expensive cross product of the parse_host cases) runs in the thorough tier only
-for _part in (0, 1, 2):
-    for _br in ((0, 1) if _part == 2 else (None,)):
-        harness(PROP, WREQ + '.access_route', name='wsgi_access_route[forwarded,hops=2%s%s]' % (
-                    '' if _part == 0 else ',two-hops=%d' % _part, '' if _br is None else ',bracketed=%d' % _br),
-                setup=_base_setup, inline=ROUTE_INLINE, **({'tier': 'thorough'} if _part == 2 else {}),
-                fix=dict({'route-source': 0, 'hops': 2, 'two-hops': _part}, **({} if _br is None else {'first-hop-bracketed': _br})))(
-            lambda v: _access_route(v, False))
+for _part, _extra, _nm in ((0, {}, ''), (1, {'hop0-has-src': 0}, ',two-hops=1,first-absent'), (1, {'hop0-has-src': 1}, ',two-hops=1,first-bare'),
+                           (2, {'first-hop-bracketed': 0}, ',two-hops=2,bracketed=0'), (2, {'first-hop-bracketed': 1}, ',two-hops=2,bracketed=1')):
+    harness(PROP, WREQ + '.access_route', name='wsgi_access_route[forwarded,hops=2%s]' % _nm, setup=_base_setup, inline=ROUTE_INLINE,
+            **({'tier': 'thorough'} if _part == 2 else {}), fix=dict({'route-source': 0, 'hops': 2, 'two-hops': _part}, **_extra))(
+        lambda v: _access_route(v, False))
 harness(PROP, WREQ + '.access_route', name='wsgi_access_route_retry', setup=_base_setup, inline=ROUTE_INLINE,
         fix={'route-source': 0, 'has-REMOTE_ADDR': 0, 'two-hops': 0})(lambda v: _access_route(v, True))
 
@@ -2168,13 +2166,11 @@ for _src, _nm in ((1, 'x-forwarded-for'), (2, 'x-real-ip'), (3, 'client')):
 for _n in (0, 1):
     harness(PROP, AREQ + '.access_route', name='asgi_access_route[forwarded,hops=%d]' % _n, setup=_base_setup, inline=A_ROUTE_INLINE,
             fix={'route-source': 0, 'hops': _n})(lambda v: _asgi_access_route(v, 'route'))
-for _part in (0, 1, 2):
-    for _br in ((0, 1) if _part == 2 else (None,)):
-        harness(PROP, AREQ + '.access_route', name='asgi_access_route[forwarded,hops=2%s%s]' % (
-                    '' if _part == 0 else ',two-hops=%d' % _part, '' if _br is None else ',bracketed=%d' % _br),
-                setup=_base_setup, inline=A_ROUTE_INLINE, **({'tier': 'thorough'} if _part == 2 else {}),
-                fix=dict({'route-source': 0, 'hops': 2, 'two-hops': _part}, **({} if _br is None else {'first-hop-bracketed': _br})))(
-            lambda v: _asgi_access_route(v, 'route'))
+for _part, _extra, _nm in ((0, {}, ''), (1, {'hop0-has-src': 0}, ',two-hops=1,first-absent'), (1, {'hop0-has-src': 1}, ',two-hops=1,first-bare'),
+                           (2, {'first-hop-bracketed': 0}, ',two-hops=2,bracketed=0'), (2, {'first-hop-bracketed': 1}, ',two-hops=2,bracketed=1')):
+    harness(PROP, AREQ + '.access_route', name='asgi_access_route[forwarded,hops=2%s]' % _nm, setup=_base_setup, inline=A_ROUTE_INLINE,
+            **({'tier': 'thorough'} if _part == 2 else {}), fix=dict({'route-source': 0, 'hops': 2, 'two-hops': _part}, **_extra))(
+        lambda v: _asgi_access_route(v, 'route'))
 harness(PROP, AREQ + '.access_route', name='asgi_access_route_retry', setup=_base_setup, inline=A_ROUTE_INLINE,
         fix={'route-source': 0, 'scope-has-client': 0, 'two-hops': 0})(lambda v: _asgi_access_route(v, 'retry'))
 harness(PROP, AREQ + '.access_route', name='asgi_access_route_client_none', setup=_base_setup, inline=A_ROUTE_INLINE,
@@ -2191,6 +2187,30 @@ def asgi_remote_addr(v):
     out = v.call(asgi_req(v, {}, scope))
     escape_only_400(v, out)
     v.check('remote-addr-is-the-client-address-or-loopback', out.exc is None and out.value == (scope['client'][0] if 'client' in scope else '127.0.0.1'))
+
+
+def _route_stub_setup(reg, ex):
+    _base_setup(reg, ex)
+
+    def access_route(I, self):
+        ctx = I.ctx
+        n = ctx.choose(3, 'route-length') + 1  # any non-empty route, whatever headers produced it (contract of access_route above)
+        route = [ctx.fresh_str('route_%d' % i) for i in range(n)]
+        ctx.ghost['route'] = route
+        return route
+
+    reg.stubs[AREQ + '.access_route'] = access_route
+
+
+@harness(PROP, AREQ + '.remote_addr', name='asgi_remote_addr_is_the_last_route_element', setup=_route_stub_setup)
+def asgi_remote_addr_last(v):
+    """Whatever headers the request carries (every subset of Forwarded / X-Forwarded-For / X-Real-IP: the access_route contract above
+    decides the route), remote_addr is the LAST element of that route -- the address nearest to the server."""
+    if v.concrete:
+        return  # the stubbed callee has no concrete twin; asgi_remote_addr replays the header-free instance
+    out = v.call(asgi_req(v, {}, {'type': 'http'}))
+    route = v.ctx.ghost.get('route')
+    v.check('remote-addr-is-the-last-element-of-the-access-route', out.exc is None and route is not None and out.value == route[-1])
 
 
 @harness(PROP, WREQ + '.client_accepts', name='asgi_client_accepts', setup=_base_setup, inline=[AREQ + '.accept'])
@@ -2479,8 +2499,11 @@ ASSUMPTIONS = [
     'int(text) (Python library reference, base 10): 1*DIGIT is accepted with its decimal value; the empty text is rejected; an accepted text without "-" is never negative; '
     'int("-" d) == -int(d) for 1*DIGIT d; an accepted text is a decimal literal (blanks, optional sign, digits with single underscores, blanks); rejection raises ValueError and nothing else. '
     'Header values are latin-1 texts (PEP 3333 native strings; ASGI byte strings decoded as latin-1) -- Unicode decimal digits beyond latin-1 are outside the domain',
-    'PEP 3333: SERVER_NAME, SERVER_PORT (decimal digits) and wsgi.url_scheme ("http" or "https") are always in the environ; ASGI scope "scheme" is one of http/https/ws/wss when present, '
-    '"server" is None or a (host, port) pair, "client" is a (host, port) pair when present (scope["client"] = None is explored separately, see the findings)',
+    'PEP 3333: SERVER_NAME, SERVER_PORT (decimal digits) and wsgi.url_scheme ("http" or "https") are always in the environ; ASGI scope "scheme" is one of http/https/ws/wss when present '
+    '(symbolic), "server" is missing, None or a (host, port) pair with 0 <= port <= 65535 (symbolic), "root_path" is missing or any string, "client" is a (host, port) pair when present '
+    '(scope["client"] = None is explored separately, see the findings); Request.is_websocket is a symbolic boolean in every ASGI harness',
+    'optional entries of the ASGI scope, of the ASGI header dict (URL properties, access_route) and the lower-priority route headers of the WSGI environ (access_route) are LAZILY present '
+    '(LazyMap: one symbolic presence bit per entry, decided when the code under contract or the specification first asks): all subsets are covered, the exploration forks only where an entry is read',
     'opaque parsers are total or raise ValueError only: _parse_forwarded_header and _parse_cookie_header return a list / a dict of non-empty value lists and never raise; '
     '_parse_etags returns a list or None and never raises; http_date_to_dt raises only ValueError (proved here relative to strptime raising only ValueError); '
     'mediatypes.quality returns a float or raises ValueError (re, strptime, http.cookies._unquote: DESIGN.md C09 "Assumed")',
@@ -2488,14 +2511,31 @@ ASSUMPTIONS = [
     'in the case-insensitivity harness str.replace is an uninterpreted function too (only congruence is needed)',
     'str.partition / find / rfind / split and slices at the found positions are encoded as word equations (s == head ++ sep ++ tail with sep not occurring earlier / later); '
     'occurrences of "]:" , ":" , "=" , "-" , "," , "." never overlap themselves',
-    'bounded shapes: X-Forwarded-For with at most 3 comma-separated addresses; Forwarded with at most 2 elements, of which the second carries a bare node name '
-    '(the comprehension / loop body treats every piece alike); cookie jars with at most 2 names and 2 values',
+    'bounded shapes: X-Forwarded-For with at most 3 comma-separated addresses (assumed of the header value wherever the header may be present); Forwarded with at most 2 elements '
+    '(quick tier: at least one of the two "for" values is absent or a bare node name, every such combination; both with port / brackets: thorough tier only, see NOT_DECIDED); '
+    'cookie jars with at most 2 names and 2 values',
+    'inputs deliberately left fixed, with the reason: '
+    '(a) the header NAME passed to get_header_as_int / get_header_as_datetime ("X-Count" / "X-When") and to the casings harnesses: these functions hand the name to get_header '
+    '(inlined; its own harnesses take a symbolic name, both `required` values, default given or not) and to the error constructor only; '
+    '(b) `required=True` in the *_casings harnesses and default=None in the two relational case-insensitivity harnesses: read only on the not-found path, which the value harnesses '
+    'wsgi_get_header / asgi_get_header cover with both values; '
+    '(c) Forwarded elements carry only the parameters the accessor under contract reads (`fields=`: src for access_route, host / scheme for forwarded_host / forwarded_scheme / URL properties, '
+    'none for `forwarded` itself); "by" (dest) is never read by an accessor of C09; '
+    '(d) URL properties (uri, prefix, forwarded_uri, ...): at most ONE Forwarded element (the composition never indexes the list; forwarded_host / forwarded_scheme are proved with two); '
+    '(e) the *_retry harnesses fix no lower-priority header, no REMOTE_ADDR / client and a bare second element: their clause is refuted on the unchanged tree for every such input alike '
+    '(known finding, one root cause) -- more inputs add refuted paths, not coverage; '
+    '(f) asgi_access_route_client_none: no route header (the TypeError is raised before any header is read); '
+    '(g) the port of scope["client"] (50000) and scope["type"] ("http"): never read after __init__; '
+    '(h) asgi_remote_addr: no route headers -- remote_addr is access_route[-1]; asgi_remote_addr_is_the_last_route_element states that over an arbitrary route (access_route stubbed by its contract); '
+    '(i) WSGI Request.is_websocket = False, uri_template = None, cache fields = None (the state __init__ establishes); WSGI forwarded_scheme without Host header (host_value=None): the accessor and everything it inlines never read HTTP_HOST',
     'the application passes ASCII header names to get_header (RFC 9110 field names are tokens); the ASGI name cache holds name -> name.lower().encode("latin1") (invariant checked at its only writer)',
 ]
 NOT_DECIDED = [
     'the grammars themselves: _parse_forwarded_header (regex scanner), _parse_cookie_header, _parse_etags / ETag.loads, strptime formats, mediatypes.quality are opaque here; '
     'agreement with an independent RFC reader is only checked by the bounded differential `bounded()` (labelled, never counted as proved), as are the date and entity-tag write-then-read round trips',
     'X-Forwarded-For with more than 3 addresses and Forwarded with more than 2 elements (symbolic piece counts need a sequence invariant over the list comprehension)',
+    'QUICK TIER ONLY: access_route with two Forwarded elements that BOTH carry a port or brackets (the cross product of the parse_host cases, ~180 paths of word equations, '
+    '~5 min per twin) runs as four harnesses with tier="thorough" ([forwarded,hops=2,two-hops=2,...]); the quick tier covers every combination in which at least one "for" is absent or bare',
     'ASGI access_route when scope["client"] carries an empty host string: the route is then empty and remote_addr raises IndexError (environment input, not a header; seen while reading)',
     'Request.headers / headers_lower / get_param* / client_prefers / user_agent, auth, expect, if_range, referer (_header_property one-liners) are not part of the accessor list of C09',
     'parse_host on its own (functional specification for every shape): decided where the accessors use it; C10 owns the function',
@@ -2506,6 +2546,50 @@ TRUSTED = [
     'falcon.request_helpers._parse_etags / _parse_cookie_header, falcon.util.http_date_to_dt, falcon.util.misc._strptime, falcon.util.mediatypes.quality)',
     'spec-side decomposition of a host / node value (port_text, spec_node_host, spec_host_port) reads the value by first / last occurrence of ":" and "]:" (RFC 3986 3.2, RFC 7239 6)',
 ]
+_WSGI_ROUTE_BLOCKS = """            if 'HTTP_FORWARDED' in self.env:
+                self._cached_access_route = []
+                for hop in self.forwarded or ():
+                    if hop.src is not None:
+                        host, __ = parse_host(hop.src)
+                        self._cached_access_route.append(host)
+            elif 'HTTP_X_FORWARDED_FOR' in self.env:
+                addresses = self.env['HTTP_X_FORWARDED_FOR'].split(',')
+                self._cached_access_route = [ip.strip() for ip in addresses]
+            elif 'HTTP_X_REAL_IP' in self.env:
+"""
+_WSGI_ROUTE_BLOCKS_SWAPPED = """            if 'HTTP_X_FORWARDED_FOR' in self.env:
+                addresses = self.env['HTTP_X_FORWARDED_FOR'].split(',')
+                self._cached_access_route = [ip.strip() for ip in addresses]
+            elif 'HTTP_FORWARDED' in self.env:
+                self._cached_access_route = []
+                for hop in self.forwarded or ():
+                    if hop.src is not None:
+                        host, __ = parse_host(hop.src)
+                        self._cached_access_route.append(host)
+            elif 'HTTP_X_REAL_IP' in self.env:
+"""
+_ASGI_ROUTE_BLOCKS = """            if b'forwarded' in headers:
+                self._cached_access_route = []
+                for hop in self.forwarded or ():
+                    if hop.src is not None:
+                        host, __ = parse_host(hop.src)
+                        self._cached_access_route.append(host)
+            elif b'x-forwarded-for' in headers:
+                addresses = headers[b'x-forwarded-for'].decode('latin1').split(',')
+                self._cached_access_route = [ip.strip() for ip in addresses]
+            elif b'x-real-ip' in headers:
+"""
+_ASGI_ROUTE_BLOCKS_SWAPPED = """            if b'x-forwarded-for' in headers:
+                addresses = headers[b'x-forwarded-for'].decode('latin1').split(',')
+                self._cached_access_route = [ip.strip() for ip in addresses]
+            elif b'forwarded' in headers:
+                self._cached_access_route = []
+                for hop in self.forwarded or ():
+                    if hop.src is not None:
+                        host, __ = parse_host(hop.src)
+                        self._cached_access_route.append(host)
+            elif b'x-real-ip' in headers:
+"""
 KILLS = [
     # a removed try/except around int()
     ('falcon/request.py', "        try:\n            value_as_int = int(value)\n        except ValueError:\n            msg = 'The value of the header must be a number.'\n            raise errors.HTTPInvalidHeader(msg, 'Content-Length')\n",
@@ -2554,6 +2638,47 @@ KILLS = [
     ('falcon/asgi/request.py', '                if port != 443:\n', '                if port != 80:\n', 'falcon.asgi.request:Request.netloc#host-header-verbatim-else-server-with-port-omitted-iff-default'),
     # parse_host: port of a bracketed literal starts one character early
     ('falcon/util/uri.py', '            return (host[1:pos], int(host[pos + 2 :]))\n', '            return (host[0:pos], int(host[pos + 2 :]))\n', 'falcon.request:Request.host#bracketed-literal-with-port-splits-into-address-and-port'),
+    # --- each of the following manifests only for an input that an earlier version of this file held fixed ---------------------------
+    # precedence between the route headers when several are present (X-Forwarded-For consulted before Forwarded)
+    ('falcon/request.py', _WSGI_ROUTE_BLOCKS, _WSGI_ROUTE_BLOCKS_SWAPPED,
+     'falcon.request:Request.access_route#route-is-forwarded-then-x-forwarded-for-then-x-real-ip-then-remote-addr'),
+    ('falcon/asgi/request.py', _ASGI_ROUTE_BLOCKS, _ASGI_ROUTE_BLOCKS_SWAPPED,
+     'falcon.asgi.request:Request.access_route#route-is-forwarded-then-x-forwarded-for-then-x-real-ip-then-client'),
+    # only the first Forwarded element is parsed: needs a SECOND element with a port / brackets
+    ('falcon/request.py', '                        host, __ = parse_host(hop.src)\n',
+     '                        host, __ = parse_host(hop.src) if not self._cached_access_route else (hop.src, None)\n',
+     'falcon.request:Request.access_route#route-is-forwarded-then-x-forwarded-for-then-x-real-ip-then-remote-addr'),
+    ('falcon/asgi/request.py', '                        host, __ = parse_host(hop.src)\n',
+     '                        host, __ = parse_host(hop.src) if not self._cached_access_route else (hop.src, None)\n',
+     'falcon.asgi.request:Request.access_route#route-is-forwarded-then-x-forwarded-for-then-x-real-ip-then-client'),
+    # two Forwarded elements AND a lower-priority header
+    ('falcon/request.py', '            if self._cached_access_route:\n                if self._cached_access_route[-1] != self.remote_addr:\n',
+     "            if self._cached_access_route:\n                if 'HTTP_FORWARDED' in self.env and len(self._cached_access_route) > 1 and 'HTTP_X_REAL_IP' in self.env:\n"
+     "                    self._cached_access_route[-1] = self.env['HTTP_X_REAL_IP']\n                if self._cached_access_route[-1] != self.remote_addr:\n",
+     'falcon.request:Request.access_route#route-is-forwarded-then-x-forwarded-for-then-x-real-ip-then-remote-addr'),
+    # ASGI forwarded_host: last element instead of the first (needs two elements)
+    ('falcon/asgi/request.py', '                host = forwarded[0].host or self.netloc\n', '                host = forwarded[-1].host or self.netloc\n',
+     'falcon.asgi.request:Request.forwarded_host#first-hop-host-then-x-forwarded-host-then-own-netloc'),
+    # ASGI port: Host header without port on a wss:// connection
+    ('falcon/asgi/request.py', '            default_port = 443 if self._secure_scheme else 80\n            __, port = parse_host(host_header, default_port=default_port)\n',
+     "            default_port = 443 if self.scheme == 'https' else 80\n            __, port = parse_host(host_header, default_port=default_port)\n",
+     'falcon.asgi.request:Request.port#host-without-port-gets-the-scheme-default-port'),
+    # "everything but http is secure": scheme ws / a websocket connection without a scheme in the scope
+    ('falcon/asgi/request.py', "        return self.scheme == 'https' or self.scheme == 'wss'\n", "        return self.scheme != 'http'\n",
+     'falcon.asgi.request:Request.netloc#host-header-verbatim-else-server-with-port-omitted-iff-default'),
+    # a server port other than 80 / 443 / 8000
+    ('falcon/asgi/request.py', '                if port != 80:\n', '                if port > 80:\n',
+     'falcon.asgi.request:Request.netloc#host-header-verbatim-else-server-with-port-omitted-iff-default'),
+    # ASGI host: Host header AND scope["server"] present
+    ('falcon/asgi/request.py', '            host, __ = parse_host(host_header)\n',
+     "            host, __ = parse_host(host_header) if not self.scope.get('server') else self._asgi_server\n", 'falcon.asgi.request:Request.host#host-without-port-gets-the-scheme-default-port'),
+    # X-Forwarded-Proto without X-Forwarded-Host (forwarded scheme and host are decided independently)
+    ('falcon/request.py', "                self.forwarded_scheme + '://' + self.forwarded_host + self.relative_uri\n",
+     "                (self.forwarded_scheme if 'HTTP_X_FORWARDED_HOST' in self.env or 'HTTP_FORWARDED' in self.env else self.scheme)"
+     " + '://' + self.forwarded_host + self.relative_uri\n", 'falcon.request:Request.forwarded_uri#value-is-the-concatenation-of-its-parts'),
+    # ASGI root_path in a scope without "server"
+    ('falcon/asgi/request.py', "            return self.scope['root_path']\n", "            return self.scope['root_path'] if 'server' in self.scope else ''\n",
+     'falcon.request:Request.prefix#value-is-the-concatenation-of-its-parts'),
 ]
 HARMLESS = [
     ('falcon/request.py', "            first, sep, last = req_range.partition('-')\n\n            if not sep:\n", "            first, dash, last = req_range.partition('-')\n\n            if not dash:\n"),
